@@ -1328,10 +1328,11 @@ _bucket_setstate(Bucket *self, PyObject *state)
         keys = BTree_Realloc(self->keys, sizeof(KEY_TYPE)*len);
         if (keys == NULL)
             return -1;
+        /* the old block is gone (or is this one) */
+        self->keys = keys;
         values = BTree_Realloc(self->values, sizeof(VALUE_TYPE)*len);
         if (values == NULL)
             return -1;
-        self->keys = keys;
         self->values = values;
         self->size = len;
     }
@@ -1344,10 +1345,16 @@ _bucket_setstate(Bucket *self, PyObject *state)
 
         COPY_KEY_FROM_ARG(self->keys[i], k, copied);
         if (!copied)
+        {
+            self->len = i;  /* we own the references taken so far */
             return -1;
+        }
         COPY_VALUE_FROM_ARG(self->values[i], v, copied);
         if (!copied)
+        {
+            self->len = i;
             return -1;
+        }
         INCREF_KEY(self->keys[i]);
         INCREF_VALUE(self->values[i]);
     }
